@@ -1,5 +1,6 @@
 import Bclv.Model.Api
 import Bclv.Verifier
+import Bclv.Model.Args
 /-!
 # Line-protocol driver: one operation per input line, one result line per operation.
 All payloads are hexadecimal.
@@ -115,6 +116,17 @@ def runOp (words : List String) : String :=
         | none => "reject")
     | .err m => "loaderr " ++ m
     | .panic => "loadpanic"
+  | ["ARGS", argv] =>
+    let args : List Bclv.Args.Arg := if argv == "-" then [] else
+      (argv.splitOn ",").map (fun h => (fromHex h).map (fun b => Char.ofNat b.toNat))
+    let showP (p : Bclv.Args.Parsed) (help : Bool) : String :=
+      let hx (a : Bclv.Args.Arg) : String := hexOrDash (a.map (fun c => UInt8.ofNat c.toNat))
+      let b (x : Bool) : String := if x then "1" else "0"
+      s!"file={hx p.file} disasm={b p.disasm} trace={b p.trace} result={b p.result} stats={b p.stats} bdump={b p.bdump} bload={b p.bload} bdumpFile={hx p.bdumpFile} bloadFile={hx p.bloadFile} help={b help}"
+    match Bclv.Args.parseArgs args with
+    | .ok p => showP p false
+    | .help p => showP p true
+    | .usage _ => "usage-error"
   | ["LOAD", hex] =>
     match load (fromHex hex) with
     | .ok p => "ok " ++ fmtProg p
